@@ -16,7 +16,7 @@
 (* computed from the logged calls and their result kinds only, never from   *)
 (* the observed values.  One VERDICT line is printed per trace.             *)
 (***************************************************************************)
-EXTENDS Clauses, Json, IOUtils, TLCExt
+EXTENDS Queries, Json, IOUtils, TLCExt
 
 Traces == JsonDeserialize(IOEnv.TRACE_FILE)
 
@@ -76,8 +76,14 @@ StepObserve ==
   /\ UNCHANGED <<R, T, rej>>
   /\ prevO' = Line.obs
 
+\* C02: a query battery on the current object (line.q = the entries)
+StepBattery ==
+  /\ Line.op = "battery"
+  /\ fails' = fails \cup { <<l, x[1], x[2]>> : x \in NotOk(C02_Table(R, Line.obs, Line.q)) }
+  /\ UNCHANGED <<R, T, rej, prevO>>
+
 Step == /\ l <= Len(Traces[tid])
-        /\ (StepNew \/ StepAdd \/ StepNode \/ StepObserve)
+        /\ (StepNew \/ StepAdd \/ StepNode \/ StepObserve \/ StepBattery)
         /\ l' = l + 1
         /\ UNCHANGED tid
 
